@@ -82,7 +82,8 @@ type endpoint struct {
 	t0       time.Time
 	closing  bool
 	inflight int
-	failing  bool // every request is answered 500
+	failing  bool            // every request is answered 500
+	failHook map[string]bool // requests of these hooks are answered 500 (outage.go)
 }
 
 var nRe = regexp.MustCompile(`"fields":\{"n":(\d+)\}`)
@@ -103,7 +104,7 @@ func (e *endpoint) handler(w http.ResponseWriter, req *http.Request) {
 	out := "ok"
 	if e.closing {
 		out = "down" // the listener is going away: this request is not accepted
-	} else if e.failing {
+	} else if e.failing || e.failHook[hook] {
 		out = "500"
 	} else if s := e.scripts[hook]; len(s) > 0 {
 		out = s[0]
@@ -1408,7 +1409,8 @@ func runC10(r *hx.Result, cfg hx.Config) {
 		"the order of the SET commands in appendonly.aof is the order in which they were applied (C07)",
 		"a request the endpoint answered with a non-2xx status, hung on or reset counts as not delivered (at-least-once duplicates after a delivered-but-failed request are outside `while healthy`)",
 		"buntdb is an ordered map with per-key TTL; match.Match, sync.Cond and net/http are not modelled",
-		"every scenario ends well inside the 30 s retention of the hook queue",
+		"every scenario except the long outage-retention case (outage.go: 33 s outage, thorough tier / failing-input search) ends well inside the 30 s retention of the hook queue",
+		"queue.db is buntdb's append-only file: `set <key> <value> ae <unix second of expiry>`; harness and server read the same clock",
 	}
 	drv, err := model.Start("queues")
 	if err != nil {
@@ -1430,6 +1432,14 @@ func runC10(r *hx.Result, cfg hx.Config) {
 		x.manyHooks(a, b)
 		return
 	}
+	if v := os.Getenv("C10_OUTAGE"); v != "" { // development aid: only the outage-retention case, "short" | "long"
+		x.outage("outage-retention-"+v, cfg.Seed, v == "long")
+		return
+	}
+	// failing-input search: the long outage first (messages queued late in a 33 s outage and in a later one)
+	if cfg.Search {
+		x.outage("outage-retention-long", rng.Int63(), true)
+	}
 	// pub/sub churn first (fast, deterministic order of operations)
 	nc, ops := churnCorpus()
 	x.churn("churn: foreign and partial unsubscribes", nc, ops)
@@ -1450,6 +1460,17 @@ func runC10(r *hx.Result, cfg hx.Config) {
 		x.restartWhileFailing(fmt.Sprintf("restart-while-failing-%d", i), rng.Int63(), 2+rng.Intn(2), 1+rng.Intn(2))
 	}
 	x.manyHooks(nh, nw)
+	// retention of messages queued late in an outage and in a later outage (outage.go)
+	nOut := 1
+	if cfg.Tier == "thorough" || cfg.Search {
+		nOut = 4
+	}
+	for i := 0; i < nOut; i++ {
+		x.outage(fmt.Sprintf("outage-retention-short-%d", i), rng.Int63(), false)
+	}
+	if cfg.Tier == "thorough" && !cfg.Search {
+		x.outage("outage-retention-long", rng.Int63(), true)
+	}
 	for i := range corpus {
 		corpus[i].Seed = cfg.Seed + int64(i)
 		x.scenario(corpus[i])
